@@ -249,7 +249,7 @@ end
 def regression (cls : String) : List (List Val) :=
   let fast : List Val := [.list [], .flag true]                       -- tls0rtt lost before /repo e3c2af8
   let sasl2 : List Val := [.list [], .record [.absent, .record fast, .absent]]
-  -- a data form field with an empty, non-null value (<value/>): read back as null today (recorded finding)
+  -- a data form field with an empty, non-null value (<value/>): read back as null before /repo 06b3045
   let form : Val := .record [.opt (some 1), .record [.str []], .record [.str []],
     .list [.record [.record [.nat 9, .str [], .list []], .str [], .str "a".toList, .record [.str []], .absent]]]
   let rsm : Val := .record [.record [.opt none], .absent, .absent, .record [.opt none]]
